@@ -5,8 +5,8 @@ import (
 	"encoding/json"
 	"fmt"
 	"os"
-	"strconv"
 	"path/filepath"
+	"strconv"
 	"strings"
 	"time"
 
@@ -447,7 +447,6 @@ func runC02(r *core.Run) {
 	r.Coverage["exhaustive"] = r.Thorough
 }
 
-
 // c02Typed: cells are not always texts - a query result holds integers, floats, booleans and datetimes.  Each typed
 // value is written in every format (--out) and read back; the text read back must be the text csvq itself shows
 // for the value (its CSV spelling): the format-independent normal form of Formats.tla with the value's canonical
@@ -604,7 +603,6 @@ func c02Typed(r *core.Run) {
 	}
 	r.Coverage["header_name_round_trips"] = cnt
 }
-
 
 func firstDiff(a, b string) int {
 	for i := 0; i < len(a) && i < len(b); i++ {
